@@ -627,11 +627,21 @@ impl<T: Display> Display for ValueReference<Vec<T>> {
             Self::Immutable(ref vec) => {
                 write!(f, "{}", join(vec.iter().map(|v| format!("{}", v)), " "))
             }
-            Self::Mutable(ref vec) => write!(
-                f,
-                "{}",
-                join(vec.borrow().iter().map(|v| format!("{}", v)), " ")
-            ),
+            Self::Mutable(ref vec) => {
+                // a vector can be stored into itself: r7rs 6.13.3, display must not loop forever on
+                // circular data, so a vector met again while it is being written is abbreviated
+                thread_local! {
+                    static BEING_WRITTEN: std::cell::RefCell<Vec<*const ()>> = std::cell::RefCell::new(Vec::new());
+                }
+                let id = Rc::as_ptr(vec) as *const ();
+                if BEING_WRITTEN.with(|stack| stack.borrow().contains(&id)) {
+                    return write!(f, "...");
+                }
+                BEING_WRITTEN.with(|stack| stack.borrow_mut().push(id));
+                let text = join(vec.borrow().iter().map(|v| format!("{}", v)), " ");
+                BEING_WRITTEN.with(|stack| stack.borrow_mut().pop());
+                write!(f, "{}", text)
+            }
         }
     }
 }
